@@ -38,15 +38,20 @@ GetIndexL1(v, idx) ==
    NAMED deviation of Level 1 from the exact equality of Level 0 (DEV_TOLERANT_EQ, Appendix C): C10 itself grants it ("well-separated
    numbers"), and MC_Cmp_near checks that it is the ONLY difference between the comparison as coded and Cmp. *)
 AbsI(n) == IF n < 0 THEN -n ELSE n
-FloatEqL1(a, b) == a = b \/ (~IsBig(a) /\ ~IsBig(b) /\ SameBase(a, b) /\ ~IsInexact(a) /\ ~IsInexact(b) /\ AbsI(UOf(a) - UOf(b)) <= 1)
+(* variable.rs float_eq as it stood before fix a697374 (finding F18): `diff / (abs_a + abs_b) < EPSILON` with the sum overflowing to
+   infinity, so that any two numbers whose magnitudes add up beyond f64::MAX (1.79769313e308) were "equal".  Magnitudes on the model's
+   nine significant digits, in units of 10^300.  Negative control NC_FLOAT_EQ_SUM_OVERFLOWS (MC_Cmp_near_neg_overflow.cfg). *)
+Mag300(a) == LET d == Digits(Abs(a.p)) + a.e IN IF ~IsBig(a) \/ d < 301 THEN 0 ELSE Scale9(Abs(a.p)) \div Pow10N(309 - d)
+SumOverflows(a, b) == Mag300(a) + Mag300(b) >= 179769314
+FloatEqL1(a, b, D) == a = b \/ ("NC_FLOAT_EQ_SUM_OVERFLOWS" \in D /\ SumOverflows(a, b)) \/ (~IsBig(a) /\ ~IsBig(b) /\ SameBase(a, b) /\ ~IsInexact(a) /\ ~IsInexact(b) /\ AbsI(UOf(a) - UOf(b)) <= 1)
 FloatEqOpenL1(a, b) == a # b /\ ~IsBig(a) /\ ~IsBig(b) /\ SameBase(a, b) /\ (IsInexact(a) \/ IsInexact(b) \/ AbsI(UOf(a) - UOf(b)) > 1)
 (* variable.rs:88-110 PartialEq: type-gated, numbers by float_eq, containers element-wise / member-wise *)
-RECURSIVE DeepEqL1(_, _), DeepEqOpenL1(_, _)
-DeepEqL1(l, r) ==
+RECURSIVE DeepEqL1(_, _, _), DeepEqOpenL1(_, _)
+DeepEqL1(l, r, D) ==
   IF l.t # r.t THEN FALSE
-  ELSE CASE l.t = "num" -> FloatEqL1(l, r)
-         [] l.t = "arr" -> Len(l.a) = Len(r.a) /\ \A i \in DOMAIN l.a : DeepEqL1(l.a[i], r.a[i])
-         [] l.t = "obj" -> Len(l.o) = Len(r.o) /\ \A i \in DOMAIN l.o : l.o[i].k = r.o[i].k /\ DeepEqL1(l.o[i].v, r.o[i].v)
+  ELSE CASE l.t = "num" -> FloatEqL1(l, r, D)
+         [] l.t = "arr" -> Len(l.a) = Len(r.a) /\ \A i \in DOMAIN l.a : DeepEqL1(l.a[i], r.a[i], D)
+         [] l.t = "obj" -> Len(l.o) = Len(r.o) /\ \A i \in DOMAIN l.o : l.o[i].k = r.o[i].k /\ DeepEqL1(l.o[i].v, r.o[i].v, D)
          [] OTHER -> l = r
 DeepEqOpenL1(l, r) ==
   IF l.t # r.t THEN FALSE
@@ -56,9 +61,9 @@ DeepEqOpenL1(l, r) ==
          [] OTHER -> FALSE
 
 (* variable.rs:411-427 compare, with PartialEq (:88-110) and the ordering operators (:113-163: partial_cmp on the doubles, exact) *)
-CompareL1(op, l, r) ==
+CompareL1(op, l, r, D) ==
   IF ~((l.t = "num" /\ r.t = "num") \/ op = "ne" \/ op = "eq") THEN JNull
-  ELSE LET eq == DeepEqL1(l, r)                \* type-gated equality; numbers by float_eq
+  ELSE LET eq == DeepEqL1(l, r, D)                \* type-gated equality; numbers by float_eq
            lt == NumLess(l, r)
            gt == NumLess(r, l)
        IN CASE op = "eq" -> JBool(eq) [] op = "ne" -> JBool(~eq)
@@ -118,7 +123,7 @@ Interp(a, v, REG, D) ==
     [] n = "Comparison" -> LET l == Interp(a.l, v, REG, D) IN
                     IF IsVErr(l) THEN l
                     ELSE LET r == Interp(a.r, v, REG, D) IN
-                         IF IsVErr(r) THEN WithAmb(r, l.amb) ELSE VOkAmb(CompareL1(a.op, l.ok, r.ok), l.amb \/ r.amb)
+                         IF IsVErr(r) THEN WithAmb(r, l.amb) ELSE VOkAmb(CompareL1(a.op, l.ok, r.ok, D), l.amb \/ r.amb)
     [] n = "ObjectValues" -> LET s == Interp(a.l, v, REG, D) IN
                     IF IsVErr(s) THEN s
                     ELSE VOkAmb(IF s.ok.t = "obj" THEN JArr([i \in DOMAIN s.ok.o |-> s.ok.o[i].v]) ELSE JNull, s.amb)
